@@ -75,6 +75,9 @@ func MissingTypes(s *Schema) []string {
 	return out
 }
 
+// KnownTwoTypeRecursion marks rejections that belong to the known-finding class.
+const KnownTwoTypeRecursion = "illegal recursion that passes through two or more distinct types"
+
 // RecursionVerdict: must Check accept the graph as far as type resolution and recursion go.
 func RecursionVerdict(s *Schema) (Verdict, string) {
 	if m := MissingTypes(s); len(m) > 0 {
@@ -105,6 +108,42 @@ func RecursionVerdict(s *Schema) (Verdict, string) {
 	}
 	if allOfBad != "" {
 		return Reject, allOfBad
+	}
+	// a key defined twice along an allOf chain (or conflicting additionalProperties): Check
+	// fails for reasons outside this property
+	dup := false
+	o := &Oracle{S: s}
+	chk := func(root *Node) {
+		if root == nil {
+			return
+		}
+		root.Walk(func(x *Node) {
+			if x.Kind != KObject || x.Rule("allOf") == nil {
+				return
+			}
+			props, _, ok := o.EffProps(x)
+			if !ok {
+				dup = true
+			}
+			seen := map[string]bool{}
+			for _, p := range props {
+				k := p.Key
+				if p.Shortcut {
+					k = "\x00" + k
+				}
+				if seen[k] {
+					dup = true
+				}
+				seen[k] = true
+			}
+		})
+	}
+	chk(s.Root)
+	for _, t := range s.Types {
+		chk(t.Root)
+	}
+	if dup {
+		return Unspec, "duplicate keys or conflicting additionalProperties along an allOf chain"
 	}
 	good := map[string]bool{}
 	var goodNode func(n *Node) bool
@@ -163,6 +202,27 @@ func RecursionVerdict(s *Schema) (Verdict, string) {
 		}
 	}
 	if !goodNode(s.Root) {
+		// Known finding C09/recursion-through-two-types: is the illegal recursion visible when
+		// every type only sees itself (references to OTHER types assumed fine)? If not, the
+		// graph belongs to the class the repository's own TestSchema_Example pins as accepted.
+		full := good
+		shallowRoot := func() bool {
+			shallow := map[string]bool{}
+			for _, t := range s.Types {
+				good = map[string]bool{}
+				for _, u := range s.Types {
+					good[u.Name] = u.Name != t.Name
+				}
+				shallow[t.Name] = t.Root == nil || goodNode(t.Root)
+			}
+			good = shallow
+			ok := goodNode(s.Root)
+			good = full
+			return ok
+		}()
+		if shallowRoot {
+			return Reject, KnownTwoTypeRecursion
+		}
 		return Reject, "root has no finite inhabitant along required references"
 	}
 	for _, t := range s.Types {
@@ -171,4 +231,88 @@ func RecursionVerdict(s *Schema) (Verdict, string) {
 		}
 	}
 	return Accept, ""
+}
+
+// Ambiguity estimates how many candidate validators a lock-step parallel validator keeps
+// alive while reading the document: alternatives of a union multiply along the nesting. It
+// is computed on the model only (never from the library's behaviour) and is used to keep
+// documents of the known exponential class out of the deep-termination monitor.
+func Ambiguity(s *Schema, v *Val) float64 {
+	type key struct {
+		n *Node
+		v *Val
+	}
+	memo := map[key]float64{}
+	var f func(n *Node, v *Val, depth int) float64
+	sameClass := func(n *Node, v *Val) bool {
+		switch n.Kind {
+		case KObject:
+			return v.K == VObj
+		case KArray:
+			return v.K == VArr
+		}
+		return v.K != VObj && v.K != VArr
+	}
+	f = func(n *Node, v *Val, depth int) float64 {
+		if depth > 300 {
+			return 1
+		}
+		k := key{n, v}
+		if r, ok := memo[k]; ok {
+			return r
+		}
+		memo[k] = 1
+		res := 1.0
+		if alts := alternatives(n); alts != nil {
+			sum := 0.0
+			for _, a := range alts {
+				name := a.Name
+				if a.Rules != nil {
+					name = ""
+					for _, rr := range a.Rules {
+						if rr.Name == "type" {
+							name = rr.Str
+						}
+					}
+				}
+				if t := s.Type(name); t != nil && t.Root != nil {
+					sum += f(t.Root, v, depth+1)
+				} else {
+					sum++
+				}
+			}
+			if sum > 1 {
+				res = sum
+			}
+		} else if sameClass(n, v) {
+			switch n.Kind {
+			case KObject:
+				for _, m := range v.Members {
+					for _, p := range n.Props {
+						if p.Key == m.Key || p.Shortcut {
+							if x := f(p.Node, m.V, depth+1); x > res {
+								res = x
+							}
+						}
+					}
+				}
+			case KArray:
+				for i, e := range v.Elems {
+					if len(n.Items) == 0 {
+						break
+					}
+					j := i
+					if j >= len(n.Items) {
+						j = len(n.Items) - 1
+					}
+					if x := f(n.Items[j], e, depth+1); x > res {
+						res = x
+					}
+				}
+			}
+		}
+		memo[k] = res
+		return res
+	}
+	return f(s.Root, v, 0)
 }
